@@ -315,7 +315,7 @@ SPEC = {
              'charges, L 1..7 (two-site >= 2), bond profiles random / maximal / over-complete / all-one, real and complex states, input norms 0.3..7 with '
              'phases. Norm and energy are evaluated on the dense state after the call AND at the entry of every internal local Hamiltonian step (trace '
              'points); every local site/bond step must preserve the norm of its tensor; return value and its scaling with the input norm, start from the normalised input (first trace point), repeated call, bond dims, '
-             'Hamiltonian digest + write trap. distinct = (integrator, model, L, profile, numiter, steps).'),
+             'Hamiltonian digest + write trap; every fifth case hands over the operator in a shifted / zeroed but equally valid labelling. distinct = (integrator, model, L, profile, numiter, steps).'),
     'deciding': ['quench.energy-conserved-wrt-current-H', 'norm-conserved', 'energy-conserved', 'trace.norm-at-every-substep', 'trace.energy-at-every-substep', 'return==norm-of-input',
                  'hamiltonian-untouched', 'singlesite.bond-dims-never-grow', 'trace.evolution-starts-from-normalised-input', 'trace.points-observed'],
     'workloads': [
